@@ -81,6 +81,7 @@ type astPkg struct {
 	order     []string          // struct names in declaration order (file order: ast.go, ast_gop.go, others)
 	ifaces    map[string]bool   // node interfaces: Node, Expr, Stmt, Decl, Spec
 	goastName string            // local import name of "go/ast" ("" if not imported)
+	funcs     map[string]*ast.FuncDecl // package-level functions by name
 	files     map[string]*ast.File
 }
 
@@ -187,6 +188,12 @@ func loadAstPkg(repo string) (*astPkg, error) {
 	for _, f := range fs {
 		for _, d := range f.Decls {
 			fd, ok := d.(*ast.FuncDecl)
+			if ok && fd.Recv == nil {
+				if p.funcs == nil {
+					p.funcs = map[string]*ast.FuncDecl{}
+				}
+				p.funcs[fd.Name.Name] = fd
+			}
 			if !ok || fd.Recv == nil || len(fd.Recv.List) != 1 {
 				continue
 			}
